@@ -71,3 +71,14 @@ Theorem C10_regenerated_is_covered_unfolds : forall W E1 E2 slack,
     (forall n w s, nth_error W n = Some w -> nth_error slack n = Some s -> (s <= rdot w (rvsub muy mux))%R).
 Proof. intros. unfold gen_ell_is_covered, gen_ell_dom_cons1, gen_ell_dom_cons2. reflexivity. Qed.
 Print Assumptions C10_regenerated_is_covered_unfolds.
+
+(* the regenerated dispatcher: the class of the FIRST region selects the rectangle or the ellipsoid predicate, and the arguments
+   are handed over unchanged *)
+From VOPy Require ExtraRefine4.
+From VOPyGen Require Gen_extra4.
+Theorem C10_dispatch_selects_the_predicate_of_the_region_class : forall (A : Type) (rect ell : A),
+  Gen_extra4.gen_dispatch A rect ell Gen_extra4.RectRegion = Some rect /\
+  Gen_extra4.gen_dispatch A rect ell Gen_extra4.EllRegion = Some ell /\
+  Gen_extra4.gen_dispatch A rect ell Gen_extra4.OtherRegion = None.
+Proof. exact ExtraRefine4.gen_dispatch_spec. Qed.
+Print Assumptions C10_dispatch_selects_the_predicate_of_the_region_class.
